@@ -83,3 +83,71 @@ Theorem C01_box_hole_boundary_refuted :
     px p = px nw /\ box_closed nw se p /\ poly_contains w o [HBox nw se] p = false.
 Proof. exact box_hole_boundary_refuted. Qed.
 Print Assumptions C01_box_hole_boundary_refuted.
+
+(* ---- independence of the start vertex and of the winding direction (GeomP4.v).
+   [o] is the open outline v0..vn-1; [reclose o] the closed list handed to GeoPolygon;
+   [norm_outline h] the constructor (closing + right-hand rule, h = _is_hole);
+   [rot k o] starts the outline at vertex k; [rev o] walks it the other way. *)
+From GV Require Import GeomP4.
+
+Theorem C01_strict_in_rot : forall p k o, strict_in p (rot k o) <-> strict_in p o.
+Proof. exact strict_in_rot. Qed.
+Print Assumptions C01_strict_in_rot.
+
+Theorem C01_strict_in_rev : forall p o, strict_in p (rev o) <-> strict_in p o.
+Proof. exact strict_in_rev. Qed.
+Print Assumptions C01_strict_in_rev.
+
+Theorem C01_pip_rotation : forall w p h h' k o, west_ok w o -> w <= px p ->
+  pip w p (norm_outline h (reclose (rot k o))) = pip w p (norm_outline h' (reclose o)).
+Proof. exact pip_rotation. Qed.
+Print Assumptions C01_pip_rotation.
+
+Theorem C01_pip_reversal : forall w p h h' o, west_ok w o -> w <= px p ->
+  pip w p (norm_outline h (reclose (rev o))) = pip w p (norm_outline h' (reclose o)).
+Proof. exact pip_reversal. Qed.
+Print Assumptions C01_pip_reversal.
+
+(* what the constructed polygon answers, in terms of the open outline it was built from *)
+Theorem C01_poly_contains_norm : forall w p h o hs,
+  west_ok w o -> (forall x, In x hs -> hole_ok w x) -> w <= px p ->
+  (poly_contains w (norm_outline h (reclose o)) hs p = true <->
+   strict_in p o /\ forall x, In x hs -> ~ hole_mem x p).
+Proof. exact poly_contains_norm. Qed.
+Print Assumptions C01_poly_contains_norm.
+
+Theorem C01_poly_contains_rotation : forall w p h h' k o hs,
+  west_ok w o -> (forall x, In x hs -> hole_ok w x) -> w <= px p ->
+  poly_contains w (norm_outline h (reclose (rot k o))) hs p =
+  poly_contains w (norm_outline h' (reclose o)) hs p.
+Proof. exact poly_contains_rotation. Qed.
+Print Assumptions C01_poly_contains_rotation.
+
+Theorem C01_poly_contains_reversal : forall w p h h' o hs,
+  west_ok w o -> (forall x, In x hs -> hole_ok w x) -> w <= px p ->
+  poly_contains w (norm_outline h (reclose (rev o))) hs p =
+  poly_contains w (norm_outline h' (reclose o)) hs p.
+Proof. exact poly_contains_reversal. Qed.
+Print Assumptions C01_poly_contains_reversal.
+
+(* ---- non-vacuity: the hypotheses are met by concrete non-trivial values.
+   The diamond of D1 (scaled by 2): its centre is level with two vertices, strictly inside,
+   and reported inside; a vertex and an edge midpoint are on the boundary. *)
+Example C01_nonvacuous_diamond_centre :
+  west_ok (-360) ex_diamond /\ -360 <= px (0, 0) /\ ~ on_boundary (0, 0) ex_diamond /\
+  evenodd (0, 0) ex_diamond /\ pip (-360) (0, 0) (norm_outline false (reclose ex_diamond)) = true.
+Proof. exact nonvacuous_diamond_centre. Qed.
+
+Example C01_nonvacuous_boundary :
+  on_boundary (1, 1) ex_diamond /\ on_boundary (2, 0) ex_diamond /\
+  pip (-360) (1, 1) ex_diamond = false /\ pip (-360) (2, 0) ex_diamond = false.
+Proof. exact nonvacuous_boundary. Qed.
+
+Example C01_nonvacuous_hole :
+  let o := [(0, 0); (16, 0); (16, 16); (0, 16)] in
+  let ho := [(4, 4); (8, 12); (12, 4)] in
+  west_ok (-360) o /\ west_ok (-360) ho /\ strict_in (8, 12) o /\ on_boundary (8, 12) ho /\
+  strict_in (8, 8) ho /\
+  poly_contains (-360) (reclose o) [HPoly (reclose ho)] (8, 12) = true /\
+  poly_contains (-360) (reclose o) [HPoly (reclose ho)] (8, 8) = false.
+Proof. exact nonvacuous_hole. Qed.
